@@ -48,6 +48,7 @@ type socket struct {
 	sendQLen   int
 	recvExpire time.Duration
 	recvq      chan *protocol.Message
+	sizeq      chan struct{}
 	ttl        int
 	sync.Mutex
 }
@@ -96,15 +97,22 @@ func (s *socket) RecvMsg() (*protocol.Message, error) {
 	if s.recvExpire > 0 {
 		tq = time.After(s.recvExpire)
 	}
-	recvq := s.recvq
 	s.Unlock()
-	select {
-	case <-s.closeq:
-		return nil, protocol.ErrClosed
-	case <-tq:
-		return nil, protocol.ErrRecvTimeout
-	case m := <-recvq:
-		return m, nil
+	for {
+		s.Lock()
+		recvq := s.recvq
+		sizeq := s.sizeq
+		s.Unlock()
+		select {
+		case <-s.closeq:
+			return nil, protocol.ErrClosed
+		case <-tq:
+			return nil, protocol.ErrRecvTimeout
+		case m := <-recvq:
+			return m, nil
+		case <-sizeq:
+			// The queue was replaced; wait on the new one.
+		}
 	}
 }
 
@@ -144,8 +152,13 @@ func (s *socket) SetOption(name string, value interface{}) error {
 			s.Lock()
 			s.recvQLen = v
 			s.recvq = newchan
+			sizeq := s.sizeq
+			s.sizeq = make(chan struct{})
 			s.Unlock()
 
+			// Let anyone waiting on the old queue know that
+			// they should look at the new one.
+			close(sizeq)
 			return nil
 		}
 		return protocol.ErrBadValue
@@ -269,7 +282,6 @@ outer:
 
 		s.Lock()
 		ttl := s.ttl
-		recvq := s.recvq
 		s.Unlock()
 		if len(m.Body) < 4 ||
 			m.Body[0] != 0 || m.Body[1] != 0 || m.Body[2] != 0 ||
@@ -298,14 +310,24 @@ outer:
 		s.Unlock()
 		m.Free()
 
-		select {
-		case recvq <- userm:
-		case <-p.closeq:
-			userm.Free()
-			break outer
-		case <-s.closeq:
-			userm.Free()
-			break outer
+	inner:
+		for {
+			s.Lock()
+			recvq := s.recvq
+			sizeq := s.sizeq
+			s.Unlock()
+			select {
+			case recvq <- userm:
+				break inner
+			case <-sizeq:
+				continue inner
+			case <-p.closeq:
+				userm.Free()
+				break outer
+			case <-s.closeq:
+				userm.Free()
+				break outer
+			}
 		}
 	}
 	p.close()
@@ -321,6 +343,7 @@ func NewProtocol() protocol.Protocol {
 		pipes:    make(map[uint32]*pipe),
 		closeq:   make(chan struct{}),
 		recvq:    make(chan *protocol.Message, defaultQLen),
+		sizeq:    make(chan struct{}),
 		sendQLen: defaultQLen,
 		recvQLen: defaultQLen,
 		ttl:      8,
